@@ -36,6 +36,7 @@ def plan(tier):
 def required(tier):
     return {
         "keyword.modular_grammars": 30,
+        "keyword.precomputed_table": 30,
         "nontrivial": 3000 if tier == "quick" else 30000,
         "literal.grammars": 300,
         "literal.inline_constructed": 100,
@@ -276,7 +277,17 @@ def keyword_case(ctx, mon):
         else:
             pg = pgx.grammar(text, ignore_case=ignore_case)
             glr = pgx.glr(pg)
-            lr = pgx.lr(pgx.grammar(text, ignore_case=ignore_case))
+            pgl = pgx.grammar(text, ignore_case=ignore_case)
+            if rng.random() < 0.2:
+                # table computed beforehand and handed over: keywords and strings still come before regexes
+                import parglare.tables as T
+
+                with pgx.quiet():
+                    tbl = T.create_table(pgl, prefer_shifts=True, prefer_shifts_over_empty=True)
+                lr = pgx.lr(pgl, table=tbl)
+                ctx.count("keyword.precomputed_table")
+            else:
+                lr = pgx.lr(pgl)
     except parglare.GrammarError as e:
         if "match the same string" in str(e):
             return
